@@ -688,3 +688,6 @@ def run(ctx, res):
                      'splice site', 'no spliced line sequence found')
     rule_strip(ctx, res)
     rule_errors(ctx, res)
+    from . import memo
+    memo.rule_no_incomplete_memo(ctx, res, 'R-C14-once', 'pico8.build.build',
+                                 'package loading')
